@@ -368,3 +368,5 @@ func sortedKeys(m map[string]bool) []string {
 	sort.Strings(out)
 	return out
 }
+
+func sortStrings(xs []string) { sort.Strings(xs) }
